@@ -97,6 +97,7 @@ package xmlenc
 //@ requires[cfg] fn: e.keyEncrypter != nil
 //@ requires[cfg] rand: RandReader != nil
 //@ requires[cfg] cert: certOK(certificate)
+//@ ensures[C08,C10] nonnil: err == nil ==> result != nil
 //@ -- the content-encryption key is drawn in this call, wrapped, and handed to the block cipher
 //@ assert@call[C10,C08] Read #1 (r io.Reader, p []byte) uses key []byte key_drawn_here:
 //@    sameSlice(p, key) && len(p) == e.BlockCipher.KeySize()
